@@ -318,6 +318,58 @@ def u_read_balance_check(I):
     return {'inputs': {}}
 
 
+def u_read_balance_any(I):
+    """ReactionQueryReader.Read, ANY number of labelled atoms: the rule is rejected exactly when the balance of SOME atom is non-zero.
+    Ghost NZ(j) = "one of the first j balances is non-zero" (NZ(0) false, NZ(j+1) = NZ(j) or balance[j] != 0, instantiated at the loop index);
+    loop invariant: the message is non-empty iff NZ(j).  State of arbitrary size from the reader units of C09 (lists of symbolic length)."""
+    from . import C09readers as R
+    from . import treeshape as ts
+    from pyvc import loops
+    from pyvc.engine import FmtStr
+    ctx = I.ctx
+    NZ = z3.Function('SomeBalanceNonZeroBefore', z3.IntSort(), z3.BoolSort())
+    R.rqr_contracts(I)
+    n = ctx.fresh('n_atoms', 'int')
+    ctx.assume(n >= 0)
+    ver = ctx.fresh('final_balances', 'int')
+    rd = Obj(source.module(RQR).classes['ReactionQueryReader'], {'tree': None, 'RINGgroups': None, 'atom_names': [], 'atom_belonging_mol': [], 'electronbalance': []}, 'param')
+
+    def reactants(I_, a, k):
+        rd.fields['atom_names'] = R.mk_list(I_, 'labels', 'str', n)
+        rd.fields['atom_belonging_mol'] = R.mk_list(I_, 'belong', 'str', n)
+        rd.fields['electronbalance'] = R.mk_list(I_, 'balance', 'num', n)
+    I.world.contracts[(RQR, 'ReactionQueryReader.ReadReactants')] = reactants
+
+    def chain(I_, a, k):
+        rd.fields['electronbalance'].fields['ver'] = ver       # whatever the edits booked: the final balances
+    I.world.contracts[(RQR, 'ReactionQueryReader.ReadTransformationChain')] = chain
+
+    def nonempty(v):
+        if isinstance(v, str):
+            return z3.BoolVal(bool(v))
+        if is_z3(v) and z3.is_string(v):
+            return z3.Length(v) > 0
+        if isinstance(v, FmtStr):
+            def lit(p_):
+                return (isinstance(p_, str) and p_ != '') or (isinstance(p_, FmtStr) and any(lit(q_) for q_ in p_.parts))
+            if any(lit(p_) for p_ in v.parts):
+                return z3.BoolVal(True)
+        raise Unsupported('cannot tell whether the message %r is empty' % (v,))
+
+    def state_at(I_, j, env, it):
+        s_ = ctx.fresh('message', 'str')
+        ctx.assume(z3.And(NZ(0) == z3.BoolVal(False), NZ(j + 1) == z3.Or(NZ(j), R.ElemNum(ver, j) != 0)))
+        ctx.assume((z3.Length(s_) > 0) == NZ(j))
+        env.local['s'] = s_
+    I.world.loop_specs[(RQR, 'ReactionQueryReader.Read', 0)] = loops.for_rule(
+        'balance', state_at, lambda I_, j, env, it: [('the message is non-empty iff one of the balances seen so far is non-zero', nonempty(env.local.get('s')) == NZ(j))])
+    ctx.assume(NZ(0) == z3.BoolVal(False))
+    rd.fields['tree'] = [[ts.tok('ReactionName'), ctx.fresh('rule_name', 'str')], [ts.tok('Reactants'), ts.opaque('ReactantQuery')], [ts.tok('TransformationChain'), ts.opaque('ConnectivityChange')]]
+    out = run_target(I, RQR, 'ReactionQueryReader.Read', [], self_obj=rd)
+    check_outcome(I, out, raises={'*': NZ(n)}, returns=lambda r: [('a balanced rule is returned as a reaction query', z3.BoolVal(isinstance(r, Obj) and r.cls.name == 'ReactionQuery'))], site='Read')
+    return {'inputs': {}}
+
+
 def u_runreactants(I):
     """unimolecular rule, two matches: one product set per match, each from its own fresh copy, transformations in rule order"""
     ctx = I.ctx
@@ -375,6 +427,7 @@ UNITS = [
     Unit('transformations.__call__', (RQ, 'BondForm.__call__'), u_transformations),
     Unit('ReactionQueryReader.Read<edit> (electron balance)', (RQR, 'ReactionQueryReader.ReadBondForm'), u_balance),
     Unit('ReactionQueryReader.Read (balance check)', (RQR, 'ReactionQueryReader.Read'), u_read_balance_check),
+    Unit('ReactionQueryReader.Read (balance check, any number of atoms)', (RQR, 'ReactionQueryReader.Read'), u_read_balance_any),
     Unit('ReactionQuery.RunReactants', (RQ, 'ReactionQuery.RunReactants'), u_runreactants),
 ]
 
@@ -382,3 +435,8 @@ PROBES = [chem.probe_bond_codes]
 
 from . import standins
 STANDINS = [standins.c16_rewriter]
+
+for _u in UNITS:
+    if 'any number of atoms' in _u.name:
+        from . import C09readers as _R      # noqa: E402
+        _u.world_factory = _R.xworld
